@@ -32,7 +32,8 @@ CONSTANTS KF_SharedLockRefCountRace,
           TokPool,     \* requests of family "tok"
           Extra,       \* additional hand-picked scenarios (set of sequences of request names)
           GFirst,      \* lock keys of genesis outputs sort before those of other transactions (raw txid order)
-          SelDet       \* selectors visit candidate outputs in one fixed order (generation) / any order (MC)
+          SelDet,      \* selectors visit candidate outputs in one fixed order (generation) / any order (MC)
+          LogOn        \* record the schedule in hist (off for liveness checking, which cannot use a VIEW)
 
 None == "none"
 NoRd == "-"
@@ -141,9 +142,10 @@ UndoOrder(S) ==
 UndoSet(s, S) == FoldLeft(LAMBDA acc, t : Unapply(acc, t), s, UndoOrder(S))
 Closure(s, S) == FoldLeft(LAMBDA acc, i : acc \cup {t \in s.pool : \E u \in acc : DependsOn(t, u)}, S, Idx(Cardinality(s.pool)))
 (* PlayAndRepost of block 2 = [award, bt] on the root: pending transactions that spend an input of the block are
-   undone together with their descendants, block transactions that are pending are confirmed, the others applied *)
+   undone together with their descendants (the selection locks of the outputs they had spent are released: the
+   outputs are free again), block transactions that are pending are confirmed, the others applied *)
 PlaySeq(s, bt) ==
-  IF s.ptr # 1 THEN [ok |-> FALSE, s |-> s]
+  IF s.ptr # 1 THEN [ok |-> FALSE, s |-> s, rel |-> {}]
   ELSE LET inb == Range(bt)
            bins == UNION {TX[t].ins : t \in inb}
            undone == Closure(s, {u \in s.pool \ inb : TX[u].ins \cap bins # {}})
@@ -153,8 +155,9 @@ PlaySeq(s, bt) ==
                                          ELSE IF Valid(acc.s, t) THEN [ok |-> TRUE, s |-> Write(acc.s, t)]
                                          ELSE [ok |-> FALSE, s |-> acc.s],
                          [ok |-> TRUE, s |-> base], bt) IN
-       IF ~r.ok THEN [ok |-> FALSE, s |-> s]
-       ELSE [ok |-> TRUE, s |-> [r.s EXCEPT !.utxo = @ \cup OutIds("aw2"), !.total = @ + Award, !.ptr = 2, !.pool = @ \ keep]]
+       IF ~r.ok THEN [ok |-> FALSE, s |-> s, rel |-> {}]
+       ELSE [ok |-> TRUE, s |-> [r.s EXCEPT !.utxo = @ \cup OutIds("aw2"), !.total = @ + Award, !.ptr = 2, !.pool = @ \ keep],
+             rel |-> UNION {TX[u].ins : u \in undone}]       \* undoTxInternal: UnlockKey of every restored input
 
 (* ---- the step model ------------------------------------------------------------------------------ *)
 VARIABLES sc,      \* the scenario: process p executes request sc[p]
@@ -167,8 +170,9 @@ VARIABLES sc,      \* the scenario: process p executes request sc[p]
           scan,    \* selector -> [vis, got, acc]
           db,      \* the stored state incl. the published pool (UnconfirmTxInMem)
           res,     \* process -> [c |-> result class, outs |-> selected outputs]
+          released, \* outputs whose selection lock was released by an undo (history)
           hist
-vars == <<sc, pc, ki, held, lm, ref, rwR, rwWait, sel, scan, db, res, hist>>
+vars == <<sc, pc, ki, held, lm, ref, rwR, rwWait, sel, scan, db, res, released, hist>>
 Procs == DOMAIN sc
 Req(p) == ReqDef[sc[p]]
 T(p) == Req(p).t
@@ -184,6 +188,7 @@ InitFor(scn) ==
   /\ scan = [p \in DOMAIN scn |-> [vis |-> {}, got |-> {}, acc |-> 0]]
   /\ db = Start(FamOf(scn))
   /\ res = [p \in DOMAIN scn |-> NoRes]
+  /\ released = {}
   /\ hist = <<>>
 Init == \E scn \in Scenarios : InitFor(scn)
 
@@ -196,16 +201,16 @@ Verify(p) ==
   /\ pc[p] = "begin" /\ Req(p).ty = "dotx"
   /\ IF ReadsOK(db, T(p)) THEN Goto(p, "verified") /\ UNCHANGED res
      ELSE Goto(p, "done") /\ SetRes(p, "stale")
-  /\ UNCHANGED <<sc, ki, held, lm, ref, rwR, rwWait, sel, scan, db>>
+  /\ UNCHANGED <<sc, ki, held, lm, ref, rwR, rwWait, sel, scan, db, released>>
 (* DoTx: RLock (not granted while a writer holds or waits for the mutex), ExtractLockKeys *)
 AcquireR(p) ==
   /\ pc[p] = "verified" /\ rwWait = {}
   /\ rwR' = rwR \cup {p} /\ Goto(p, "dotx_before_trylock")
-  /\ UNCHANGED <<sc, ki, held, lm, ref, rwWait, sel, scan, db, res>>
+  /\ UNCHANGED <<sc, ki, held, lm, ref, rwWait, sel, scan, db, res, released>>
 EnterTryLock(p) ==
   /\ pc[p] = "dotx_before_trylock"
   /\ IF NK(p) = 0 THEN Goto(p, "dotx_locked") /\ UNCHANGED ki ELSE Goto(p, "trylock_key") /\ ki' = [ki EXCEPT ![p] = 1]
-  /\ UNCHANGED <<sc, held, lm, ref, rwR, rwWait, sel, scan, db, res>>
+  /\ UNCHANGED <<sc, held, lm, ref, rwR, rwWait, sel, scan, db, res, released>>
 (* key i is locked: next key, or TryLock returns true *)
 Advance(p, i, L) ==
   /\ held' = [held EXCEPT ![p] = Append(@, L)]
@@ -225,28 +230,28 @@ TryKey(p) ==
              ELSE ref' = [ref EXCEPT ![L.k] = @ + 1] /\ Advance(p, i, L)
           /\ UNCHANGED <<lm, res>>
      ELSE Goto(p, "dotx_before_unlock") /\ SetRes(p, "busy") /\ UNCHANGED <<lm, ref, held, ki>>   \* TryLock returns false
-  /\ UNCHANGED <<sc, rwR, rwWait, sel, scan, db>>
+  /\ UNCHANGED <<sc, rwR, rwWait, sel, scan, db, released>>
 RefAdd(p) ==
   /\ pc[p] \in {"trylock_first_before_add", "trylock_shared_before_add"}
   /\ LET L == LK[T(p)][ki[p]] IN ref' = [ref EXCEPT ![L.k] = @ + 1] /\ Advance(p, ki[p], L)
-  /\ UNCHANGED <<sc, lm, rwR, rwWait, sel, scan, db, res>>
+  /\ UNCHANGED <<sc, lm, rwR, rwWait, sel, scan, db, res, released>>
 (* critical section *)
 CheckPool(p) ==
   /\ pc[p] = "dotx_locked"
   /\ IF T(p) \in db.pool THEN Goto(p, "dotx_before_unlock") /\ SetRes(p, "stale") ELSE Goto(p, "dotx_before_apply") /\ UNCHANGED res
-  /\ UNCHANGED <<sc, ki, held, lm, ref, rwR, rwWait, sel, scan, db>>
+  /\ UNCHANGED <<sc, ki, held, lm, ref, rwR, rwWait, sel, scan, db, released>>
 VerifyAndApply(p) ==
   /\ pc[p] = "dotx_before_apply"
   /\ IF Valid(db, T(p)) THEN Goto(p, "dotx_before_write") /\ UNCHANGED res ELSE Goto(p, "dotx_before_unlock") /\ SetRes(p, "stale")
-  /\ UNCHANGED <<sc, ki, held, lm, ref, rwR, rwWait, sel, scan, db>>
+  /\ UNCHANGED <<sc, ki, held, lm, ref, rwR, rwWait, sel, scan, db, released>>
 BatchWrite(p) ==
   /\ pc[p] = "dotx_before_write"
   /\ db' = Write(db, T(p)) /\ Goto(p, "dotx_after_write")
-  /\ UNCHANGED <<sc, ki, held, lm, ref, rwR, rwWait, sel, scan, res>>
+  /\ UNCHANGED <<sc, ki, held, lm, ref, rwR, rwWait, sel, scan, res, released>>
 Publish(p) ==
   /\ pc[p] = "dotx_after_write"
   /\ db' = [db EXCEPT !.pool = @ \cup {T(p)}] /\ SetRes(p, "admit") /\ Goto(p, "dotx_before_unlock")
-  /\ UNCHANGED <<sc, ki, held, lm, ref, rwR, rwWait, sel, scan>>
+  /\ UNCHANGED <<sc, ki, held, lm, ref, rwR, rwWait, sel, scan, released>>
 (* Unlock (reverse order), then RUnlock and return *)
 Finish(p) == Goto(p, "done") /\ rwR' = rwR \ {p}
 NextU(p, j) == IF j > 1 THEN Goto(p, "unlock_key") /\ ki' = [ki EXCEPT ![p] = j - 1] /\ UNCHANGED rwR ELSE Finish(p) /\ UNCHANGED ki
@@ -254,7 +259,7 @@ EnterUnlock(p) ==
   /\ pc[p] = "dotx_before_unlock"
   /\ IF held[p] = <<>> THEN Finish(p) /\ UNCHANGED ki
      ELSE Goto(p, "unlock_key") /\ ki' = [ki EXCEPT ![p] = Len(held[p])] /\ UNCHANGED rwR
-  /\ UNCHANGED <<sc, held, lm, ref, rwWait, sel, scan, db, res>>
+  /\ UNCHANGED <<sc, held, lm, ref, rwWait, sel, scan, db, res, released>>
 UnlockKey(p) ==
   /\ pc[p] = "unlock_key"
   /\ LET j == ki[p]
@@ -264,11 +269,11 @@ UnlockKey(p) ==
           /\ IF ref[L.k] - 1 # 0 THEN UNCHANGED lm /\ NextU(p, j)
              ELSE IF Two THEN Goto(p, "unlock_shared_before_delete") /\ UNCHANGED <<lm, ki, rwR>>
              ELSE lm' = [lm EXCEPT ![L.k] = None] /\ NextU(p, j)
-  /\ UNCHANGED <<sc, held, rwWait, sel, scan, db, res>>
+  /\ UNCHANGED <<sc, held, rwWait, sel, scan, db, res, released>>
 DeleteKey(p) ==
   /\ pc[p] = "unlock_shared_before_delete"
   /\ LET L == held[p][ki[p]] IN lm' = [lm EXCEPT ![L.k] = None] /\ NextU(p, ki[p])
-  /\ UNCHANGED <<sc, held, ref, rwWait, sel, scan, db, res>>
+  /\ UNCHANGED <<sc, held, ref, rwWait, sel, scan, db, res, released>>
 
 (* SelectUtxos: one candidate output per step (tryLockKey / isLocked under MutexMem) *)
 Cand(p) == {u \in db.utxo : Owner(u) = Req(p).a} \ scan[p].vis
@@ -287,26 +292,29 @@ SelScan(p) ==
                /\ IF scan[p].acc + Amt(u) >= Req(p).need
                   THEN Goto(p, "done") /\ res' = [res EXCEPT ![p] = [c |-> "ok", outs |-> scan[p].got \cup {u}]]
                   ELSE Goto(p, "sel_scan") /\ UNCHANGED res
-  /\ UNCHANGED <<sc, ki, held, lm, ref, rwR, rwWait, db>>
+  /\ UNCHANGED <<sc, ki, held, lm, ref, rwR, rwWait, db, released>>
 SelUnlock(p) ==
   /\ pc[p] = "sel_unlock"
   /\ LET u == First(scan[p].got) IN
      /\ sel' = [sel EXCEPT ![u] = 0] /\ scan' = [scan EXCEPT ![p].got = @ \ {u}]
      /\ IF scan[p].got = {u} THEN Goto(p, "done") /\ SetRes(p, "nomoney") ELSE UNCHANGED <<pc, res>>
-  /\ UNCHANGED <<sc, ki, held, lm, ref, rwR, rwWait, db>>
+  /\ UNCHANGED <<sc, ki, held, lm, ref, rwR, rwWait, db, released>>
 
 (* PlayAndRepost: Lock() waits until the readers have left and bars new readers meanwhile; the play itself has
    no yield point (one step) *)
-DoPlay(p) == LET r == PlaySeq(db, Req(p).b) IN db' = r.s /\ SetRes(p, IF r.ok THEN "ok" ELSE "fail") /\ Goto(p, "done")
+DoPlay(p) == LET r == PlaySeq(db, Req(p).b) IN
+             /\ db' = r.s /\ SetRes(p, IF r.ok THEN "ok" ELSE "fail") /\ Goto(p, "done")
+             /\ sel' = [u \in AllOuts |-> IF u \in r.rel THEN 0 ELSE sel[u]]
+             /\ released' = released \cup r.rel
 PlayBegin(p) ==
   /\ pc[p] = "begin" /\ Req(p).ty = "play"
   /\ IF rwR = {} /\ rwWait = {} THEN DoPlay(p) /\ UNCHANGED rwWait
-     ELSE rwWait' = rwWait \cup {p} /\ Goto(p, "wlock") /\ UNCHANGED <<db, res>>
-  /\ UNCHANGED <<sc, ki, held, lm, ref, rwR, sel, scan>>
+     ELSE rwWait' = rwWait \cup {p} /\ Goto(p, "wlock") /\ UNCHANGED <<db, res, sel, released>>
+  /\ UNCHANGED <<sc, ki, held, lm, ref, rwR, scan>>
 WAcquire(p) ==
   /\ pc[p] = "wlock" /\ rwR = {}
   /\ DoPlay(p) /\ rwWait' = rwWait \ {p}
-  /\ UNCHANGED <<sc, ki, held, lm, ref, rwR, sel, scan>>
+  /\ UNCHANGED <<sc, ki, held, lm, ref, rwR, scan>>
 
 Step(p) == \/ Verify(p) \/ AcquireR(p) \/ EnterTryLock(p) \/ TryKey(p) \/ RefAdd(p) \/ CheckPool(p) \/ VerifyAndApply(p)
            \/ BatchWrite(p) \/ Publish(p) \/ EnterUnlock(p) \/ UnlockKey(p) \/ DeleteKey(p)
@@ -318,7 +326,8 @@ AllDone == \A p \in Procs : pc[p] = "done"
 (* a writer whose Lock() has just been granted is already running *)
 Granted == {p \in Procs : pc[p] = "wlock" /\ rwR = {}}
 Movers == IF Granted # {} THEN Granted ELSE Procs
-Next == \/ \E p \in Movers : Step(p) /\ hist' = Append(hist, <<p, pc'[p], KeyAt(p)'>>)
+Log(p) == hist' = IF LogOn THEN Append(hist, <<p, pc'[p], KeyAt(p)'>>) ELSE hist
+Next == \/ \E p \in Movers : Step(p) /\ Log(p)
         \/ AllDone /\ UNCHANGED vars
 Spec == Init /\ [][Next]_vars
 FairSpec == Spec /\ WF_vars(Next)
@@ -365,13 +374,15 @@ OutcomeOK(scn, R, O, waived) ==
           [] rq(p).ty = "play" /\ R[p].c = "fail" -> \E i \in DOMAIN sts : ~PlaySeq(sts[i], rq(p).b).ok
           [] rq(p).ty = "sel" ->
                LET others == {q \in P \ {p} : rq(q).ty = "sel" /\ rq(q).lk /\ rq(q).a = rq(p).a}
+                   (* an undo (play) releases the selection locks of the outputs the undone transaction had spent *)
+                   free == IF \E q \in P : rq(q).ty = "play" THEN UNION {TX[rq(q).t].ins : q \in {q \in P : rq(q).ty = "dotx"}} ELSE {}
                    ever == UNION {sts[i].utxo : i \in DOMAIN sts}
                    always == {u \in ever : \A i \in DOMAIN sts : u \in sts[i].utxo} IN
                IF R[p].c = "ok"
                THEN /\ R[p].outs \subseteq {u \in ever : Owner(u) = rq(p).a}
                     /\ SumAmt(R[p].outs) >= rq(p).need
                     /\ \E u \in R[p].outs : SumAmt(R[p].outs) - Amt(u) < rq(p).need
-                    /\ rq(p).lk => \A q \in others : R[q].c = "ok" => R[q].outs \cap R[p].outs = {}
+                    /\ rq(p).lk => \A q \in others : R[q].c = "ok" => R[q].outs \cap R[p].outs \subseteq free
                ELSE R[p].c = "nomoney" /\ (others # {} \/ SumAmt({u \in always : Owner(u) = rq(p).a}) < rq(p).need)
           [] OTHER -> p \in Eff \/ dupAdmit(p) IN
   \E pi \in PermSeqs(Eff) : \E r \in {run(pi)} :
@@ -381,17 +392,39 @@ OutcomeOK(scn, R, O, waived) ==
 
 (* after the run every DoTx request is issued once more, one at a time (State.DoTx directly): none may be refused
    for a lock (a lock that was not released), each behaves as on the final state *)
-EpilogueOK(scn, O, E) ==
+EpilogueOK(scn, O, E, O2) ==
   LET dos == SelectSeq(Idx(Len(scn)), LAMBDA p : ReqDef[scn[p]].ty = "dotx")
-      s0 == [utxo |-> O.utxo, ver |-> O.ver, pool |-> O.pool, total |-> O.total, ptr |-> O.ptr]
       r == FoldLeft(LAMBDA acc, i :
                       LET t == ReqDef[scn[dos[i]]].t
                           exp == IF t \notin acc.s.pool /\ Valid(acc.s, t) THEN "admit" ELSE "stale" IN
                       IF E[i] = "other" THEN acc
                       ELSE IF E[i] # exp THEN [acc EXCEPT !.ok = FALSE]
                       ELSE IF exp = "admit" THEN [acc EXCEPT !.s = Apply(acc.s, t)] ELSE acc,
-                    [ok |-> TRUE, s |-> s0], Idx(Len(dos))) IN
-  Len(E) = Len(dos) /\ r.ok
+                    [ok |-> TRUE, s |-> O], Idx(Len(dos))) IN
+  Len(E) = Len(dos) /\ r.ok /\ r.s = O2
+
+(* ---- what the parked goroutines show (sequence of <<process, site, key>> actually reached) ---------- *)
+ConflictKeys(t, u) == {x.k : x \in {x \in LockSet(t) : \E y \in LockSet(u) : x.k = y.k /\ (x.m = "X" \/ y.m = "X")}}
+(* keys on which two processes were inside the critical window (between dotx_locked and the first unlock) at the
+   same time with conflicting lock modes *)
+OverlapKeys(scn, steps) ==
+  FoldLeft(LAMBDA acc, e :
+             LET p == e[1] IN
+             IF e[2] = "dotx_locked"
+             THEN [in |-> acc.in \cup {p},
+                   bad |-> acc.bad \cup UNION {ConflictKeys(ReqDef[scn[p]].t, ReqDef[scn[q]].t) : q \in acc.in \ {p}}]
+             ELSE IF e[2] \in {"unlock_key", "done"} THEN [acc EXCEPT !.in = @ \ {p}] ELSE acc,
+           [in |-> {}, bad |-> {}], steps).bad
+(* keys on which the window of the reference-count protocol was hit: one process parked between LoadOrStore and
+   refCounter.Add while another is parked between refCounter.Release (= 0) and Delete *)
+RaceWindowKeys(scn, steps) ==
+  FoldLeft(LAMBDA acc, e :
+             LET at2 == [acc.at EXCEPT ![e[1]] = <<e[2], e[3]>>]
+                 hit == {k \in Keys : \E p, q \in DOMAIN scn :
+                            /\ at2[p] \in {<<"trylock_shared_before_add", k>>, <<"trylock_first_before_add", k>>}
+                            /\ at2[q] = <<"unlock_shared_before_delete", k>>} IN
+             [at |-> at2, keys |-> acc.keys \cup hit],
+           [at |-> [p \in DOMAIN scn |-> <<"begin", "">>], keys |-> {}], steps).keys
 
 (* ---- invariants ------------------------------------------------------------------------------------ *)
 CSSites == {"dotx_locked", "dotx_before_apply", "dotx_before_write", "dotx_after_write", "dotx_before_unlock"}
@@ -407,14 +440,15 @@ ConflictFree == \A t, u \in Admitted : t # u =>
 (* an output selected with locking is held by at most one selector *)
 LockSel(p) == Req(p).ty = "sel" /\ Req(p).lk
 SelectorsDisjoint == \A p, q \in Procs : (p # q /\ LockSel(p) /\ LockSel(q)) =>
-                        (scan[p].got \cup res[p].outs) \cap (scan[q].got \cup res[q].outs) = {}
-SelHeld == \A p \in Procs : LockSel(p) => \A u \in scan[p].got : sel[u] = p
+                        (scan[p].got \cup res[p].outs) \cap (scan[q].got \cup res[q].outs) \subseteq released
+SelHeld == \A p \in Procs : LockSel(p) => \A u \in scan[p].got : sel[u] = p \/ u \in released
 (* the final observable state equals the result of some serial order of the same requests *)
 Serialisable == AllDone => OutcomeOK(sc, res, ObsOfDb(db), {})
 (* nothing stays locked *)
 Quiescent == AllDone => /\ \A k \in LockNames : lm[k] = None /\ ref[k] = 0
                         /\ rwR = {} /\ rwWait = {}
                         /\ \A u \in AllOuts : sel[u] # 0 => (res[sel[u]].c = "ok" /\ u \in res[sel[u]].outs)
+                        /\ \A p \in Procs : (LockSel(p) /\ res[p].c = "ok") => \A u \in res[p].outs : sel[u] = p \/ u \in released
 TypeOK == /\ \A k \in LockNames : lm[k] \in {None, "S", "X"} /\ ref[k] \in 0..Cardinality(Procs)
           /\ rwR \subseteq Procs /\ rwWait \subseteq Procs
 (* liveness (config without state constraint): every request returns *)
@@ -422,7 +456,7 @@ Termination == <>AllDone
 (* used by the "find" configurations: stop at the first complete run whose outcome is not serialisable *)
 NotBad == ~(AllDone /\ ~OutcomeOK(sc, res, ObsOfDb(db), {}))
 
-View == <<sc, pc, ki, held, lm, ref, rwR, rwWait, sel, scan, db, res>>
+View == <<sc, pc, ki, held, lm, ref, rwR, rwWait, sel, scan, db, res, released>>
 
 -----------------------------------------------------------------------------
 (* ---- footprints (generation only): which adjacent steps commute ----------------------------------- *)
